@@ -402,8 +402,8 @@ def run_property(pid, tier="quick", seed=0, only=None, jobs=None, no_replay=Fals
     # write their record under out/ instead
     from . import extract as _X
     ev["coverage"]["repo_under_check"] = _X.REPO
-    evdir = os.path.join(HERE, "evidence") if os.path.realpath(_X.REPO) == "/repo" else \
-        os.path.join(HERE, "out", "evidence_scratch")
+    evdir = os.path.join(HERE, "evidence") if (os.path.realpath(_X.REPO) == "/repo" and not only) else \
+        os.path.join(HERE, "out", "evidence_scratch")      # partial runs (--only / --replay) are not the record
     os.makedirs(evdir, exist_ok=True)
     with open(os.path.join(evdir, "%s.json" % pid), "w") as f:
         json.dump(ev, f, indent=1, default=repr)
